@@ -296,6 +296,7 @@ def run_impl(c):
         if cfg["named"] is not None:
             bar.set_message(cfg["named"], "title")
         trace = []
+        states = []      # the bar's own (current step, maximum) after every call: what a frame has to show
         t = termemu.Term(cfg["w"])
         t.feed(init)
         per_op = []      # section outputs: the screen and the bar section's content after every call
@@ -324,13 +325,14 @@ def run_impl(c):
             delta = io.fetch_error()[len(before):]
             t.feed(delta)
             trace.append([Clock.now, termemu.tokens(delta)])
+            states.append([bar.get_progress(), bar.get_max_steps()])
             if secs:
                 per_op.append([list(t.screen()), t.r, t.c, secs[0].content])
         contents = [[[S(l) for l in s.content.split("\n")[:-1]] if s.content else [], s.lines] for s in secs]
         # get_progress_percent() is a float quotient of two small integers: the reduced fraction names it exactly
         pct = Fraction(bar.get_progress_percent()).limit_denominator(10 ** 6)
         return [trace, [bar.get_progress(), bar.get_max_steps(), pct.numerator, pct.denominator], [[S(r) for r in t.screen()], t.r, t.c],
-                io.fetch_output(), 0, termemu.tokens(init), contents, per_op, builtin_formats(ProgressBar)]
+                io.fetch_output(), 0, termemu.tokens(init), contents, per_op, builtin_formats(ProgressBar), states]
     finally:
         time.time = real
 
@@ -414,16 +416,18 @@ def in_history_class(c):
 
 
 # ---- decoding a frame by its format ----
-_TIME = r"(?:< 1 sec|1 sec|\d+ secs|1 min|\d+ mins|1 hr|\d+ hrs|1 day|\d+ days)"
 
 
-def frame_regex(pieces, msg, named=None):
+ANY = r"[^\n]*?"      # a field the statement does not speak of: any text without a line break, as short as the anchors allow
+
+
+def frame_regex(pieces):
+    """the pattern of a frame of this format: literal parts as they are (blanks may pad every line), current step / maximum /
+    bar segment / percentage decoded, every other placeholder - durations, messages, named messages - lenient"""
     rx = ""
     for p in pieces:
         k = p[0]
-        if k == 9:
-            rx += re.escape("%" + p[1] + "%" if named is None else named)
-        elif k == 0:
+        if k == 0:
             rx += " *\n".join(re.escape(part) for part in p[1].split("\n"))     # blanks pad every line of a frame
         elif k == 1:
             rx += r" *(?P<cur>\d+)"
@@ -433,12 +437,8 @@ def frame_regex(pieces, msg, named=None):
             rx += r"(?P<bar>[=>-]*)"
         elif k == 4:
             rx += r" *(?P<pct>\d+) *"
-        elif k in (5, 8):
-            rx += " *" + _TIME + " *"
-        elif k == 6:
-            rx += r" *\d+ *"
         else:
-            rx += re.escape("%message%" if msg is None else msg)
+            rx += ANY
     return re.compile(rx + r" *\Z")
 
 
@@ -454,49 +454,40 @@ def rows_of(lines, w):
 
 
 def oracle(c, o):
+    """The statement of C16 on what the real code did - and nothing beyond it.  A frame is decoded by a pattern built from
+    the format: the literal parts of the format are the anchors, the fields the statement speaks of (current step, maximum,
+    bar segment, percentage) are decoded, every other placeholder (elapsed / remaining / estimated time, messages) matches any
+    text without a line break: how a duration or a message is written is not the property's business.  'Current step' and
+    'maximum' are the bar's own (get_progress() / get_max_steps() after the call): the statement does not say how a step
+    beyond the maximum is treated, only that what is shown is the current step, within 0..maximum, with its percentage."""
     cfg = norm_cfg(c["cfg"])
     kind = cfg["kind"]
     fmtp = CUSTOM[cfg["fmt"]] if cfg["fmt"] else None
     if o and o[0] == "EXC":
-        if o[1] == "RuntimeError" and cfg["fmt"] in NEEDS_MAX and "maximum number of steps is not set" in o[2] \
+        if o[1] == "RuntimeError" and cfg["fmt"] in NEEDS_MAX \
                 and (cfg["max"] <= 0 or any(op[0] == 0 and op[1] is not None and op[1] <= 0 for _, op in c["ops"])):
-            return None      # %estimated% / %remaining% on a bar without maximum: the documented refusal
+            return None      # %estimated% / %remaining% on a bar without maximum: the documented refusal (whatever its wording)
         return "exception:" + o[1]
-    trace, (step, mx, _pn, _pd), (screen, scr_r, scr_c), stdout, _unused, init, contents, per_op, builtin = o
+    trace, (step, mx, _pn, _pd), (screen, scr_r, scr_c), stdout, _unused, init, contents, per_op, builtin, states = o
     if stdout != "":
         return "wrote-to-standard-output"
-    if step < 0 or (mx > 0 and step > mx):
-        return "step-out-of-range"
     quiet, plain, section = is_quiet(kind), not is_ansi(kind), kind == "section"
     flc = fmt_string(fmtp).count("\n") if fmtp else 0
     w = cfg["w"]
     below = cfg["below"].split("\n") if (is_section(kind) and cfg["below"] is not None) else []
-    msg = cfg["msg"]
-    sim_max, sim_step = max(0, cfg["max"]), 0
+    prev = None               # the bar's (step, maximum) before the call
     last_draw = None          # clock value of the previous write of the bar
     latest = None             # the text of the latest write of the bar (lines), None before the first
     latest_frame = None       # the decoded latest FRAME (not a clear)
     nwrites = 0
+    ends_nl = False           # plain output: the previous write of the bar ended with a line break
     for i, ((now, toks), (dt, op)) in enumerate(zip(trace, c["ops"])):
-        # the bookkeeping the property talks about (maximum growth, clamping), restated independently
-        if op[0] == 0:
-            sim_step = 0
-            if op[1] is not None:
-                sim_max = max(0, op[1])
-        elif op[0] in (1, 2):
-            st = sim_step + op[1] if op[0] == 1 else op[1]
-            if sim_max and st > sim_max:
-                sim_max = st
-            elif st < 0:
-                st = 0
-            sim_step = st
-        elif op[0] == 5:
-            if not sim_max:
-                sim_max = sim_step
-            sim_step = sim_max
-        elif op[0] == 6:
-            msg = op[1]
-        elif op[0] == 7:
+        st_step, st_max = states[i]
+        reached = st_max > 0 and st_step == st_max and prev != (st_step, st_max)
+        prev = (st_step, st_max)
+        if st_step < 0 or (st_max > 0 and st_step > st_max):
+            return "step-out-of-range"
+        if op[0] == 7:
             below = below + op[1].split("\n")
         if section or kind == "quietsection":
             # the section clause of C15, after every call: the screen is the bar's section on top of the section below
@@ -513,7 +504,7 @@ def oracle(c, o):
             if toks:
                 return "quiet-output-received-bytes"
             continue
-        if op[0] in (1, 2) and sim_max > 0 and sim_step == sim_max and not toks:
+        if op[0] in (1, 2) and reached and not toks:
             return "reaching-the-maximum-did-not-draw"
         if op[0] == 5 and not plain and not toks:
             return "finish-did-not-draw"
@@ -526,21 +517,25 @@ def oracle(c, o):
             else:
                 text = text_of(toks)
                 if plain:
-                    # every frame on its own line: a line break before every frame but the first, none after it
-                    if nwrites > 0 and not text.startswith("\n"):
-                        return "plain-frames-not-on-own-lines"
-                    text = text[1:] if nwrites > 0 else text
+                    # every frame on its own line: a line break between two frames, written behind the one or before the other
+                    # (one line break is the separator; a frame may itself begin with an empty line - an empty message)
+                    if nwrites > 0 and not ends_nl:
+                        if not text.startswith("\n"):
+                            return "plain-frames-not-on-own-lines"
+                        text = text[1:]
+                    ends_nl = text.endswith("\n")
+                    if ends_nl:
+                        text = text[:-1]
                 lines = text.split("\n")
             if len(lines) != flc + 1:
                 return "plain-frames-not-on-own-lines" if plain else "frame-not-well-formed"
             nwrites += 1
             latest = lines
             if op[0] != 4:
-                vmsg = None if msg is None else visible(msg)[0]
                 cands = [fmtp] if fmtp else [parse_fmt(f) for f in builtin]
                 m = None
                 for pieces in cands:
-                    m = frame_regex(pieces, vmsg, None if cfg["named"] is None else visible(cfg["named"])[0]).match("\n".join(lines))
+                    m = frame_regex(pieces).match("\n".join(lines))
                     if m:
                         break
                 if not m:
@@ -548,28 +543,29 @@ def oracle(c, o):
                 g = m.groupdict()
                 if g.get("bar") is not None and len(g["bar"]) != cfg["bw"]:
                     return "bar-segment-width"
-                if g.get("cur") is not None and int(g["cur"]) != sim_step:
+                if g.get("cur") is not None and int(g["cur"]) != st_step:
                     return "shown-step-is-not-the-current-step"
                 if g.get("max") is not None:
-                    if int(g["max"]) != sim_max:
+                    if int(g["max"]) != st_max:
                         return "shown-maximum-is-not-the-maximum"
                     if g.get("cur") is not None and int(g["max"]) > 0 and int(g["cur"]) > int(g["max"]):
                         return "shown-step-out-of-range"
-                if g.get("pct") is not None and sim_max > 0 and int(g["pct"]) != sim_step * 100 // sim_max:
+                # the matching percentage: less than one point away from 100 * step / maximum (rounded down or to the nearest)
+                if g.get("pct") is not None and st_max > 0 and abs(int(g["pct"]) * st_max - 100 * st_step) >= st_max:
                     return "shown-percentage-wrong"
                 latest_frame = g
                 # throttle: a redraw caused by advancing that does not reach the maximum
-                if op[0] in (1, 2) and last_draw is not None and sim_step != sim_max \
+                if op[0] in (1, 2) and last_draw is not None and st_step != st_max \
                         and Fraction(now - last_draw, 1000) < Fraction(min_interval(cfg)):
                     return "redraw-inside-the-minimum-interval"
             last_draw = now
         # finish: the last frame after finish shows the maximum at 100 % (on a plain output it may be the frame drawn when
         # the maximum was reached: it is not written twice)
-        if op[0] == 5 and sim_max > 0:
+        if op[0] == 5 and st_max > 0:
             g = latest_frame
             if g is None:
                 return "finish-did-not-draw"
-            if (g.get("cur") is not None and int(g["cur"]) != sim_max) or (g.get("pct") is not None and g["pct"] != "100") \
+            if (g.get("cur") is not None and int(g["cur"]) != st_max) or (g.get("pct") is not None and g["pct"] != "100") \
                     or (g.get("max") is not None and g.get("cur") is not None and g["max"] != g["cur"]):
                 return "finish-not-at-100-percent"
     if quiet:
